@@ -2,7 +2,7 @@
 # usage: seed_eval.sh <seed-id> <property> <agent worktree>   -- confirm a seeded change independently, then run the check on it
 set -u
 ID=$1; PROP=$2; SA=$3
-W=/tmp/w1
+W=${SEED_W:-/tmp/w1}
 OUT=/verif/seeded/$ID
 mkdir -p $OUT
 cp $SA/seed_out/patch.diff $OUT/patch.diff
